@@ -48,11 +48,22 @@ fn err_same(e: Error, m: MErr) -> bool {
 /// registers whose rule is compared (skeleton registers are drawn from this set)
 pub const REGS: [u16; 6] = [0, 7, 16, 33, 34, 1000];
 
+/// K-byte ULEB128 / SLEB128 at a literal offset, loop-free and narrow (so that the solver sees the constant-zero
+/// high bits: products of such operands stay cheap).  K <= 2.
 pub fn ul(buf: &[u8], off: usize, k: usize) -> u64 {
-    ref_uleb(&buf[off..off + k]).map(|x| x.0 as u64).unwrap_or(0)
+    if k == 1 {
+        (buf[off] & 0x7f) as u64
+    } else {
+        (buf[off] & 0x7f) as u64 | ((buf[off + 1] & 0x7f) as u64) << 7
+    }
 }
 pub fn sl(buf: &[u8], off: usize, k: usize) -> i64 {
-    ref_sleb(&buf[off..off + k]).map(|x| x.0 as i64).unwrap_or(0)
+    if k == 1 {
+        (((buf[off] & 0x7f) as i8) << 1 >> 1) as i64
+    } else {
+        let v = (buf[off] & 0x7f) as i16 | ((buf[off + 1] & 0x7f) as i16) << 7;
+        ((v << 2) >> 2) as i64
+    }
 }
 pub fn ui(buf: &[u8], off: usize, n: usize) -> u64 {
     // loop-free little-endian read (keeps the harness's unwind bound independent of operand widths)
